@@ -239,7 +239,7 @@ def one_run(srv, sb, workdir, direction, remote, content, blk, w, tmo, label, ho
     args = [remote if direction == "download" else (local_name or base), "-i", host, "-p", str(port),
             "-b", str(blk), "-w", str(w), "-t", str(tmo)]
     args += ["-d", "-rd", rd] if direction == "download" else ["-u"]
-    out_before = len(srv.output())
+    out_before = srv.mark()
     rc, so, se = run_tftpc(args, workdir, timeout=run_timeout)
     time.sleep(0.05)
     if proxy:
@@ -255,11 +255,11 @@ def one_run(srv, sb, workdir, direction, remote, content, blk, w, tmo, label, ho
         # exits: the client process has ended; the server reports on stdout / stderr
         deadline = time.time() + 1.0
         while time.time() < deadline:
-            tail = srv.output()[out_before:]
+            tail = srv.output_since(out_before)
             if ("Sent " in tail or "Received " in tail or "Error " in tail):
                 break
             time.sleep(0.02)
-        tail = srv.output()[out_before:]
+        tail = srv.output_since(out_before)
         lines = [l for l in tail.splitlines() if l.startswith(("Sent ", "Received ", "Error "))]
         if len(lines) == 1:
             ok = not lines[0].startswith("Error ")
